@@ -9,6 +9,7 @@ top-level slots never are).
 operations; `MOp` / `stepM` / `runM` (in `Lemmas/Mutators.lean`) the alphabet of the mutators.
 -/
 import Anytype.Lemmas.Deriving
+import Anytype.Lemmas.Slices
 import Anytype.Spec.Json
 namespace Anytype
 open Heap Rf
@@ -178,6 +179,39 @@ example :
     (C09_independent c09H _ _ _ _ hr1 hr2 0 0 (by decide) (by decide) (.add 3 [.slice .any [.nil]])
       (Or.inr (Or.inr (Or.inl rfl))) 4 (Or.inr (Or.inr (Or.inr rfl))) (by decide)).1⟩
 
+/-! ## Storage level: a derived list owns a new array
+
+The statements above are about cells of the heap model, where a list is a plain sequence.  At the level of
+backing arrays (`Model/Slices`): a list made by `Concat`, `SubList`, `Clone`, `NewList*` lives in an array that
+did not exist before the call (so nothing that existed can reach it), the call leaves every existing list as it
+was, and whatever is later done to any other list never shows in it. -/
+
+theorem C09_slice_fresh {α : Type} (cfg : Slices.Cfg α) (sorted : List α → List α) (σ : Slices.SHeap α)
+    (hw : σ.WF) (op : Slices.Op α) (c : Nat) (h : (Slices.step cfg sorted σ op).2 = .made c) :
+    c = σ.cells.length ∧ ∃ s, (Slices.step cfg sorted σ op).1.cells[c]? = some s ∧ σ.mem.length ≤ s.arr :=
+  Slices.made_fresh cfg sorted σ hw op c h
+
+/-- a deriving operation (one that is not called *on* a list to change it) leaves every existing list as it was -/
+theorem C09_slice_pure {α : Type} (cfg : Slices.Cfg α) (sorted : List α → List α) (σ : Slices.SHeap α)
+    (hw : σ.WF) (op : Slices.Op α) (hop : op.tgt = none) (d : Nat) (hd : d < σ.cells.length) :
+    (Slices.step cfg sorted σ op).1.abs[d]? = σ.abs[d]? :=
+  Slices.step_frame cfg sorted σ hw op d hd (by rw [hop]; exact fun h => nomatch h)
+
+/-- after a derivation, any operation on any other list (the receiver, the argument, another result) leaves the
+derived list as it is — whatever the capacities and the growth policy -/
+theorem C09_slice_independent {α : Type} (cfg : Slices.Cfg α) (sorted : List α → List α) (σ : Slices.SHeap α)
+    (hw : σ.WF) (op : Slices.Op α) (c : Nat) (h : (Slices.step cfg sorted σ op).2 = .made c)
+    (op2 : Slices.Op α) (hne : op2.tgt ≠ some c) :
+    (Slices.step cfg sorted (Slices.step cfg sorted σ op).1 op2).1.abs[c]? = (Slices.step cfg sorted σ op).1.abs[c]? := by
+  have hw1 := Slices.step_wf cfg sorted σ hw op
+  obtain ⟨hc, s, hs, _⟩ := Slices.made_fresh cfg sorted σ hw op c h
+  have hlt : c < (Slices.step cfg sorted σ op).1.cells.length := by
+    rcases Nat.lt_or_ge c (Slices.step cfg sorted σ op).1.cells.length with h1 | h1
+    · exact h1
+    · rw [List.getElem?_eq_none h1] at hs; cases hs
+  exact Slices.step_frame cfg sorted _ hw1 op2 c hlt hne
+
+
 #print axioms C09_derive_table
 #print axioms C09_outRef
 #print axioms C09_pure
@@ -188,5 +222,8 @@ example :
 #print axioms C09_frame
 #print axioms C09_independent
 #print axioms C09_independent_program
+#print axioms C09_slice_fresh
+#print axioms C09_slice_pure
+#print axioms C09_slice_independent
 
 end Anytype
